@@ -67,12 +67,13 @@ def run(ctx):
         "the harness controller harness/src/bin/c19.rs and, in controlled mode, the add-only hook hooks/C19-loader-points.diff",
     ]
     ctx.assumptions += [
-        "sources are constant during a run",
+        "sources are constant during a run, except in the kind=upd histories (round 11): there ONE rewrite of the sources completes "
+        "while a loader waits for the lock; rewrites that overlap a check or a cc run stay outside the statement",
         "a crash is the death of a whole process (SIGKILL/abort): nothing is cleaned up",
         "safety is proved for compiles that either complete or die with their process (or for the re-checking variant); "
         "the unchanged tree's behaviour when cc fails and returns is the refutation safety_compile_error",
     ]
-    ctx.prove(["TsVerif.C19.Props"], "TsVerif/C19/Audit.lean")
+    ctx.prove(["TsVerif.C19.Props", "TsVerif.C19.SrcUpdateProps"], "TsVerif/C19/Audit.lean")
     driver = ctx.build_driver("tsv-c19")
     explorer = ctx.cargo_bin("c19")
     if not (explorer and os.path.exists(driver)):
@@ -127,7 +128,7 @@ def run(ctx):
     samples = []
     corr_cmp = corr_bad = corr_skip = judge_bad = 0
     timing_excluded, timing_retried = [], 0
-    kinds = {"ctl": 0, "free": 0}
+    kinds = {"ctl": 0, "free": 0, "upd": 0}
     variants = {}
     outcome_hist = {}
     for line in out.split("\n"):
@@ -210,6 +211,10 @@ def run(ctx):
         "mode": "controlled+free" if hook else "free-only",
         "hook_present": hook, "variant": mode.get("variant", "?"),
         "kinds": kinds, "samples": samples,
+        "source_update_histories": {"ran": kinds.get("upd", 0),
+                                    "rule": "controlled histories (hook points) with a source rewrite placed while a loader waits at `poll` "
+                                            "(lock planted, or held by a live loader that compiles the old sources); judge Upd.okGen: a success shows a "
+                                            "generation >= the one the loader's last check read; replayed in the Lean model TsVerif.C19.Upd (srcUpdate step)"},
         "outcome_histogram": dict(sorted(outcome_hist.items(), key=lambda x: -x[1])[:25]),
         "timing": {"retried_after_stall": timing_retried, "excluded_inconclusive": len(timing_excluded),
                    "excluded_cases": timing_excluded[:5],
@@ -219,6 +224,8 @@ def run(ctx):
         "judge": {"evaluated": evals - len(timing_excluded), "passed": evals - len(timing_excluded) - judge_bad},
         "impl_vs_judge_failures": judge_bad, "model_vs_impl_disagreements": corr_bad,
     })
+    if hook and not ctx.replay:
+        ctx.oblige("run:source-update-histories-ran", kinds.get("upd", 0) >= 8, "%d kind=upd cases" % kinds.get("upd", 0))
     if evals == 0:
         ctx.oblige("run:driver-produced-results", False,
                    ("a controlled schedule can only be replayed with hooks/C19-loader-points.diff applied "
